@@ -118,6 +118,10 @@ def make_variant(kind, dst):
         if kind == "rename-locals":
             tree = LocalRenamer().visit(tree)
             ast.fix_missing_locations(tree)
+        elif kind == "rename+add":
+            tree = LocalRenamer().visit(tree)
+            tree = AddLogging().visit(tree)
+            ast.fix_missing_locations(tree)
         elif kind == "add-statement":
             tree = AddLogging().visit(tree)
             ast.fix_missing_locations(tree)
@@ -139,7 +143,7 @@ def run_check(args):
 
 
 def main():
-    kinds = sys.argv[1:] or ["reformat", "rename-locals", "add-statement", "sql-whitespace"]
+    kinds = sys.argv[1:] or ["reformat", "rename-locals", "add-statement", "sql-whitespace", "rename+add"]
     tmp = pathlib.Path(tempfile.mkdtemp(prefix="verif_benign_"))
     try:
         for kind in kinds:
